@@ -460,6 +460,9 @@ def _round(number, num_digits, _rounding=decimal.ROUND_HALF_UP):
     number = decimal.Decimal(str(number))
     with decimal.localcontext() as dc:
         dc.rounding = _rounding
+        # The result can have more digits than the default precision holds
+        # (e.g. ROUND(1E+20, 10)), which would raise InvalidOperation.
+        dc.prec = max(dc.prec, number.adjusted() + int(num_digits) + 2)
         ans = round(number, int(num_digits))
     return float(ans)
 
